@@ -1,6 +1,7 @@
 """Configuration of ./check C09 (see pylib/props.py)."""
 CFG = dict(
-        coq=["props/C09.vo"],
+        coq=["props/C09.vo", "props/Compose.vo"],
+        compose=['Compose_srv_depth', 'Compose_fetch_depth', 'Compose_tables_depth', 'Compose_depth_two', 'Compose_serve', 'Compose_fetch_delivers', 'Compose_fetch_closed', 'Compose_fetch_objects'],
         tie=["gen/Tie_C09.vo"],
         model_vo=["model/Session.vo", "model/RefUpdate.vo", "gen/Extracted.vo"],
         extract="Ex_C09",
